@@ -46,6 +46,11 @@ Theorem C23_ephemeral_keymode_refuted : exists cfg ops, redis_map_run cfg ops <>
 Proof. exists cfE, w_ephemeral_keymode. destruct ephemeral_keymode_differs as [-> ->]. discriminate. Qed.
 Theorem C23_clear_idempotency_refuted : exists ops, redis_map_run cfP ops <> mem_map_run cfP ops.
 Proof. exists w_clear_idem. exact clear_idem_differs. Qed.
+Theorem C23_ephemeral_single_key_revision_refuted : exists cfg ops, redis_map_run cfg ops <> mem_map_run cfg ops.
+Proof.
+  exists cfE, w_ephemeral_single_rev. intros E. destruct ephemeral_single_rev_differs as [A B].
+  rewrite E in A. rewrite A in B. discriminate B.
+Qed.
 (* after Clear, ReadStream re-creates the channel with the SAME epoch (the node id) on Redis *)
 Theorem C23_clear_epoch_reuse_refuted :
   exists ops, nth 0 (redis_map_run cfP ops) MErr = nth 2 (redis_map_run cfP ops) MErr /\
